@@ -1,16 +1,20 @@
 #!/usr/bin/env python3
 """Confirm sub-agent refactorings (behaviour-preserving twins) and copy them to /verif/twins/<id>/.
-usage: harvest_refs.py R01 R02 ..."""
+usage: harvest_refs.py [--only=r9,r10,r11,r12] R01b R02b ..."""
 import json, os, shutil, subprocess, sys
 PY = "/venv/bin/python"
 def run(cmd, cwd, env=None, timeout=900):
     e = dict(os.environ); e.update(env or {})
     p = subprocess.run(cmd, cwd=cwd, env=e, capture_output=True, text=True, timeout=timeout)
     return p.returncode, p.stdout + p.stderr
-for rid in sys.argv[1:]:
+ONLY = None
+for a in sys.argv[1:]:
+    if a.startswith("--only="):
+        ONLY = a[len("--only="):].split(",")
+for rid in [a for a in sys.argv[1:] if not a.startswith("--")]:
     wt = f"/tmp/wt/{rid}"
     rid = rid.rstrip("b")
-    for v in ("r1", "r2", "r3", "r4", "r5", "r6", "r7", "r8"):
+    for v in ONLY or ["r%d" % k for k in range(1, 13)]:
         sd = f"{wt}/_ref/{v}"
         if not os.path.exists(f"{sd}/patch.diff"):
             continue
